@@ -180,6 +180,39 @@ def impl_main(payload):
                                        % (j, x[r].tolist(), an, fd, base, cs.tolist()))
         if len(orc["samples"]) < 2:
             orc["samples"].append(dict(stack=base))
+    # ---- every operator at arguments of magnitude 1e-9 and 1e6 (where finite differences say nothing): exact derivatives from
+    # sympy in 40-digit arithmetic; a rule with a hidden absolute tolerance is wrong at one of the scales
+    try:
+        import sympy as sp
+        X0, X1, C0, C1 = sp.symbols("X0 X1 C0 C1", real=True)
+        u, v = C0 * X0, C1 * X1
+        forms = {2: u + v, 3: u - v, 4: u * v, 5: u / v, 6: sp.sin(u), 7: sp.cos(u), 8: sp.exp(u), 9: sp.log(sp.Abs(u)), 10: sp.Abs(u) ** v,
+                 11: sp.Abs(u), 12: sp.sqrt(sp.Abs(u)), 13: sp.Abs(u) ** v, 14: sp.sinh(u), 15: sp.cosh(u)}
+        for op, expr in sorted(forms.items()):
+            stack = [[1, 0, 0], [0, 0, 0], [4, 0, 1], [1, 1, 1], [0, 1, 1], [4, 3, 4], [op, 2, 5]]
+            for scale in (2e-9, 1.0, 3e5):
+                if op in (8, 14, 15) and scale > 1:
+                    continue
+                if op in (10, 13) and scale != 1.0:
+                    pt = {X0: sp.Float(scale, 40), X1: sp.Float(1.0, 40), C0: sp.Float(1.5, 40), C1: sp.Float(0.5, 40)}
+                else:
+                    pt = {X0: sp.Float(scale, 40), X1: sp.Float(-1.5 * scale, 40), C0: sp.Float(1.5, 40), C1: sp.Float(-0.5, 40)}
+                g = AGraph()
+                g.command_array = np.array(stack, dtype=int)
+                g.set_local_optimization_params([float(pt[C0]), float(pt[C1])])
+                xx = np.array([[float(pt[X0]), float(pt[X1])]])
+                _, dfdx = g.evaluate_equation_with_x_gradient_at(xx)
+                _, dfdc = g.evaluate_equation_with_local_opt_gradient_at(xx)
+                got = list(np.asarray(dfdx, dtype=float).reshape(-1)) + list(np.asarray(dfdc, dtype=float).reshape(-1))
+                want = [float(sp.diff(expr, w).evalf(40, subs=pt)) for w in (X0, X1, C0, C1)]
+                orc["checks"] += 1
+                for nm, a_, b_ in zip(("X_0", "X_1", "C_0", "C_1"), got, want):
+                    if math.isfinite(b_) and not abs(a_ - b_) <= 1e-9 * abs(b_) + 1e-300:
+                        orc["viol"].append("d/d%s of command %d applied to (C_0*X_0, C_1*X_1) at x=%r constants %r is %r, exact %r"
+                                           % (nm, op, xx[0].tolist(), [float(pt[C0]), float(pt[C1])], a_, b_))
+                        break
+    except ImportError:
+        pass
     # known finding F9b: value shape in the exception branch of the gradient entry points
     g = AGraph()
     g.command_array = np.array([[-1, 1, 1], [-1, 0, 0], [5, 0, 1]], dtype=int)
